@@ -242,6 +242,57 @@ pub fn run(ctx: &Ctx) -> Rep {
         rep.merge(r3);
     }
 
+    // ---- Ord::clamp: the one Ord method that takes three ranks -------------------------------------------
+    // (a lawful total order clamps x into [lo, hi] as: hi if x > hi, lo if x < lo, else x; an overridden clamp that
+    // decides from raw values instead of cmp contradicts the order). Bounds from a set of boundary values (both
+    // blanks of the value range, the first and last valid values, every class boundary neighbourhood, invalid
+    // values) x every 16-bit value as x.
+    if !ctx.smoke() {
+        let mut bounds: Vec<u16> = vec![0, 1, 2, 10, 11, 166, 167, 322, 323, 1599, 1600, 1609, 1610, 2467, 2468, 3325, 3326, 6185, 6186, 7461, 7462, 7463, 7464, 8192, 8193, 32767, 32768, 65534, 65535];
+        let mut rngb = drive::Rng::new(ctx.seed, 0xC07_C1A);
+        for _ in 0..35 {
+            bounds.push(rngb.below(65536) as u16);
+        }
+        bounds.sort_unstable();
+        bounds.dedup();
+        let mut pairs: Vec<(u16, u16)> = Vec::new();
+        for &lo in &bounds {
+            for &hi in &bounds {
+                if ranks[lo as usize].cmp(&ranks[hi as usize]) != Ordering::Greater {
+                    pairs.push((lo, hi)); // clamp requires lo <= hi (it may panic otherwise)
+                }
+            }
+        }
+        let sc = par_run(ctx, pairs.len(), mk, |st, pi| {
+            let (lo, hi) = pairs[pi];
+            let (l, h) = (ranks[lo as usize], ranks[hi as usize]);
+            for v in 0..=65535u16 {
+                let x = ranks[v as usize];
+                let got = x.clamp(l, h);
+                let want = if x.cmp(&h) == Ordering::Greater {
+                    h
+                } else if x.cmp(&l) == Ordering::Less {
+                    l
+                } else {
+                    x
+                };
+                st.rep.evaluations += 1;
+                if got != want || got.value != want.value {
+                    st.rep.violation(
+                        "clamp agrees with cmp (Ord contract of a lawful total order)",
+                        "HandRank::clamp",
+                        Input::U16s(vec![v, lo, hi]),
+                        format!("from({})", want.value),
+                        format!("from({}) for from({}).clamp(from({}), from({}))", got.value, v, lo, hi),
+                    );
+                }
+            }
+            st.rep.add("clamp_bound_pairs_x_all_values", 1);
+        });
+        let (rc, _) = merge_states(sc);
+        rep.merge(rc);
+    }
+
     // ---- the enumerations: ordered strongest-first in step with the value -------
     let mut enum_pairs = 0u64;
     let names: Vec<HandRankName> = (0..=7463u16).map(|v| HandRank::determine_name(&v)).collect();
@@ -322,6 +373,30 @@ pub fn replay(_ctx: &Ctx, inp: &Input, clause: &str) -> Rep {
             });
             if let Err(msg) = r {
                 st.rep.violation("panic", "HandRank::cmp", inp.clone(), "normal return".into(), msg);
+            }
+        }
+        Input::U16s(v) if v.len() == 3 => {
+            // [x, lo, hi]: the clamp clause
+            let r = drive::guard(|| {
+                let (x, l, h) = (HandRank::from(v[0]), HandRank::from(v[1]), HandRank::from(v[2]));
+                let got = x.clamp(l, h);
+                let want = if x.cmp(&h) == Ordering::Greater {
+                    h
+                } else if x.cmp(&l) == Ordering::Less {
+                    l
+                } else {
+                    x
+                };
+                (got, want)
+            });
+            st.rep.evaluations += 1;
+            match r {
+                Ok((got, want)) => {
+                    if got != want || got.value != want.value {
+                        st.rep.violation("clamp agrees with cmp (Ord contract of a lawful total order)", "HandRank::clamp", inp.clone(), format!("from({})", want.value), format!("from({})", got.value));
+                    }
+                }
+                Err(msg) => st.rep.violation("panic", "HandRank::clamp", inp.clone(), "normal return".into(), msg),
             }
         }
         Input::U16s(v) if v.len() == 2 => {
